@@ -310,7 +310,11 @@ Lemma wt_where_mono : forall (f g : ballot -> bool) bs, (forall b, In b bs -> 0 
 Proof.
   intros f g bs Hw H. unfold EditSpec.wt_where. rewrite !Lib_rk.qsum_filter_as_ite.
   apply qsum_map_le. intros b Hb. specialize (H b Hb). specialize (Hw b Hb).
-  destruct (f b), (g b); try lra. all: try discriminate (H eq_refl).
+  destruct (f b); destruct (g b).
+  - apply Qle_refl.
+  - discriminate (H eq_refl).
+  - exact Hw.
+  - apply Qle_refl.
 Qed.
 
 Lemma wt_where_le_total : forall (f : ballot -> bool) bs, (forall b, In b bs -> 0 <= wt b) ->
